@@ -23,13 +23,12 @@ TEXT = {'text': 'Kernel-checked theorems over a faithful model of SighashCache (
          'sequence whose Prevouts::All carry that list, the answers of one live cache equal, operation by operation, the answers of a cache created for '
          'that operation alone on the transaction with the witness updates made so far (proved through the invariant "every filled cache equals the value '
          'recomputed from the current transaction and spent outputs", C13_invariant/C13_step, and C13_caches_ignore_script_witness); C13_need_all — '
-         'Prevouts::One with a type without ANYONECANPAY is Err(PrevoutKind) in every state; C13_acp_one — for NONE|ACP and SINGLE|ACP, One(i, spent[i]) '
-         'yields the same pre-image, digest and cache state as All; C13_acp_one_refuted / C13_F11_all_acp_one_always_fails — finding F11: ALL|ANYONECANPAY '
-         'with One is Err(PrevoutKind) for every transaction. Each run drives one real SighashCache with random operation sequences, compares every '
+         'Prevouts::One with a type without ANYONECANPAY is Err(PrevoutKind) in every state; C13_acp_one — for every ANYONECANPAY type (ALL|ACP, NONE|ACP, SINGLE|ACP), One(i, spent[i]) '
+         'yields the same pre-image, digest and cache state as All (finding F11 was repaired by 539d5ee; the model follows the new cache layout). Each run drives one real SighashCache with random operation sequences, compares every '
          'answer with the extracted model and, on the implementation itself, with a fresh cache and with One versus All.',
  'design_ref': 'DESIGN.md section 6, C13',
  'note': 'Trusted: Coq kernel; hand-written Gallina model of src/sighash.rs tied to the code by per-run correspondence; abstract hashes; the C01 encoders; '
-         'regenerated constants. Known finding F11 (ALL|ANYONECANPAY + Prevouts::One -> PrevoutKind) is reported as KNOWN-FINDING; the main One/All theorem is '
-         'restricted by the decidable class F11_known.',
+         'regenerated constants. Finding F11 (ALL|ANYONECANPAY + Prevouts::One -> PrevoutKind) is fixed (539d5ee): the One/All theorem is unrestricted and the '
+         'harness predicate acp-one-differs reports a recurrence as a violation.',
  'technique': 'Coq proof (state invariant + evaluation relation over a state monad; induction over operation sequences) + per-run model/implementation '
               'correspondence with implementation-side predicate (fresh cache, One vs All)'}
